@@ -31,12 +31,8 @@ def behaviour (h : Heap Nat) : String :=
   let ls := liveSlots h
   let bs := ls.map (fun (k, hd) => s!"{k}=" ++ fmtList "[" "]" (contents h.allocs hd))
   let eqs := ls.flatMap (fun (_, a) => ls.map (fun (_, b) =>
-    -- `PartialEq for NumbatList`: length, then pointer+view short-cut, then element-wise
-    let la := lenOf h.allocs a
-    let lb := lenOf h.allocs b
-    if la != lb then '0'
-    else if a.alloc == b.alloc && a.view == b.view then '1'
-    else if contents h.allocs a == contents h.allocs b then '1' else '0'))
+    -- `PartialEq for NumbatList` (Model/ListM.eqHandles): lengths, then element-wise
+    if eqHandles (fun (x y : Nat) => x == y) h.allocs a b then '1' else '0'))
   " ".intercalate bs ++ " E" ++ String.ofList eqs
 
 def structure_ (h : Heap Nat) : String :=
